@@ -1,31 +1,16 @@
-"""Per-property configuration of the check driver: which test units run, with how many
-cases per tier, and the evidence texts (rule, assumptions)."""
+"""Collects the per-property driver configuration from config/CXX.py (one file per property, each
+defining CONFIG): which test units run, with how many cases per tier, and the evidence/manifest texts."""
+import glob
+import importlib
+import os
 
 PROPS = {}
+# property id -> reason; properties that are deliberately not claimed
 NOT_APPLICABLE = {}
+# commits in /repo that add build-tag guarded hooks (none are needed)
 HOOK_COMMITS = []
 
-NOTE_COMMON = ("Trusted base: the Go toolchain, rapid's generators, and the oracle code in /verif/harness (written from the "
-               "property text). Sampling/enumeration over the stated domain; absence beyond the explored cases is not established.")
-
-PROPS["C32"] = dict(
-    pkg="c32", level="exploration",
-    technique="exhaustive enumeration (16/32-bit) + rapid property test with hand-written reference encoders",
-    level_text=("All 16-bit and (thorough) all 32-bit values are enumerated against a reference encoder and neighbour-order "
-                "check, which settles those widths completely; 64-bit values, idx types and event IDs are sampled with "
-                "boundary-biased pairs."),
-    level_note=NOTE_COMMON,
-    rule=("16-bit values enumerated completely; 32-bit values enumerated completely in the thorough tier "
-          "(16 shards) and over boundary windows in quick; 64-bit pairs and event-ID pairs drawn by rapid from "
-          "boundary-biased generators. Oracle: hand-written shift encoders, numeric comparison. Non-trivial = "
-          "neighbour pair with a carry into a higher byte (enumerations), pair differing only in the highest or only "
-          "in the lowest byte (64-bit pairs), ID pair whose order is decided by Lamport or where epoch and Lamport "
-          "order disagree (event IDs); distinct by value hash."),
-    assumptions=["bytes.Compare is the byte-wise order meant by the property"],
-    units=[
-        dict(test="TestC32Enum16", kind="plain"),
-        dict(test="TestC32Enum32", kind="plain", shards=16),
-        dict(test="TestC32Pairs", quick=200000, thorough=16000000, shards=16),
-        dict(test="TestC32EventIDs", quick=100000, thorough=8000000, shards=16),
-    ],
-)
+_here = os.path.dirname(os.path.abspath(__file__))
+for _f in sorted(glob.glob(os.path.join(_here, "config", "C[0-9]*.py"))):
+    _id = os.path.basename(_f)[:-3]
+    PROPS[_id] = importlib.import_module("config." + _id).CONFIG
